@@ -120,6 +120,11 @@ pub fn eq_ignore_case_all(s: &str) -> (r: bool) ensures r == is_all(s@) { s.eq_i
 /// R8/R32: `for part in s.split(',')`
 #[verifier::external_body]
 pub fn split_comma_vec<'a>(s: &'a str) -> (r: Vec<&'a str>) ensures strs_view(r@) == comma_pieces(s@) { s.split(',').collect() }
+/// std: `split_terminator` is `split` without a trailing empty piece
+#[verifier::external_body]
+pub fn split_terminator_comma_vec<'a>(s: &'a str) -> (r: Vec<&'a str>)
+    ensures strs_view(r@) == (if comma_pieces(s@).len() > 0 && comma_pieces(s@).last().len() == 0 { comma_pieces(s@).drop_last() } else { comma_pieces(s@) }),
+{ s.split_terminator(',').collect() }
 /// R32: `CAPS.contains(&part.to_uppercase().as_str())`
 #[verifier::external_body]
 pub fn caps_contains_upper(part: &str) -> (r: bool) ensures r == known_cap(part@) { unimplemented!() }
@@ -150,7 +155,9 @@ pub proof fn lemma_first_op(c: Seq<char>)
              ('fn validate_capset', '#[verifier::loop_isolation(false)]\nfn validate_capset', 1, 'verifier attribute: facts about variables the loop does not modify stay available'),
              ],
        spec='    ensures r is Ok <==> capset_ok(s@),',
-       index_loops={0: ('i_n', LOOP_CAPSET, '', ("s.split(',')", 'let names = split_comma_vec(s);', 'names'))},
+       index_loops={0: ('i_n', LOOP_CAPSET, '', ({"s.split(',')": 'let names = split_comma_vec(s);',
+                                                  # a different std iterator over the same text (two independent seeds used it): judged, not rejected
+                                                  "s.split_terminator(',')": 'let names = split_terminator_comma_vec(s);'}, None, 'names'))},
        before=[('        if !CAPS.contains(', 'proof { assert(strs_view(names@)[i_n as int] == part@); }\n')],
        ),
     Fn(CAPS, 'validate_suffix',
